@@ -1,5 +1,5 @@
 (* Prop_C11.v — C11: a panic in user code never leaks a lock or a key (fault-free worlds, every shape). *)
-From HL Require Import Base Model Shape Algo Api OpsLemmas Lemmas ShapeLemmas ApiLemmas QuietLemmas Check Monitors Pf_Calls.
+From HL Require Import Base Model Shape Algo Api OpsLemmas Lemmas ShapeLemmas ApiLemmas QuietLemmas Check Monitors Pf_Calls Pf_Hist Pf_Hist11.
 
 (* panic inside a scoped closure: propagates, every hold released (table as before the call), the key
    dropped if it was moved in and untouched if it was only lent, other threads' keys untouched *)
@@ -35,6 +35,33 @@ Proof.
   intros pw t b h w w1 H v w'. simpl. rewrite H. destruct (run pw t h w1) as [o w2]. destruct o; discriminate.
 Qed.
 
+(* ---------------------------------------------------------------- every history *)
+(* For EVERY fault-free history (any number of threads, any collections, any holds of other parties at the start) the
+   monitor the check evaluates on the implementation holds of the model: a panic of user code — with a guard alive, or
+   inside a scoped closure of any lock, wrapper or collection, with the key lent or moved in — reaches the caller; no
+   release by a non-holder is issued; every lock of the guard / the call is released exactly once; the thread holds
+   nothing afterwards; and the key is obtainable again exactly if it was not merely lent (and not leaked before). *)
+Theorem C11_every_history :
+  forall sc, wf_histb sc = true -> mon_C11 sc (model_obs sc) = true.
+Proof. exact C11_all_histories_dec. Qed.
+Check C11_every_history : forall sc, wf_histb sc = true -> mon_C11 sc (model_obs sc) = true.
+
+Definition ex_hist11 : scen :=
+  mks 4 1 [0; 1; 2; 3] []
+      [SLeaf KMutex 0; SPoison 0 (SLeaf KRw 1); SBoxed (SSeq [SLeaf KMutex 0; SPoison 0 (SLeaf KRw 1)]);
+       SRetry (SSeq [SLeaf KMutex 0; SLeaf KMutex 2]); SOwned 0 (SSeq [SLeaf KRw 3])]
+      [(2, mkraw (Some 100) [])] [] [] 4
+      [(0, AKeyGet); (0, AAcquire 2 Ex FGuard); (0, APanic); (0, AKeyGet);
+       (0, AAcquire 2 Ex (FScoped true [CWrite 0; CPanic])); (0, AAcquire 4 Sh (FScopedTry false [CPanic]));
+       (1, AKeyGet); (1, AAcquire 3 Ex (FScopedTry true [CPanic])); (1, AAcquire 1 Sh FGuard); (1, AGuardForget); (1, APanic);
+       (0, AKeyGet); (0, APanic)].
+Example C11_every_history_nonvacuous :
+  wf_histb ex_hist11 = true /\ mon_C11 ex_hist11 (model_obs ex_hist11) = true /\
+  map co_ret (model_obs ex_hist11) =
+    [RB true; ROk; RPanicked; RB true; RPanicked; RPanicked; RB true; RWouldBlock; RPoisoned; ROk; RPanicked; RB true; RPanicked].
+Proof. vm_compute. repeat split. Qed.
+
 Print Assumptions C11_closure_panic.
 Print Assumptions C11_guard_panic.
 Print Assumptions C11_catch_reraises.
+Print Assumptions C11_every_history.
